@@ -68,12 +68,13 @@ def same_default(a_has, a, b_has, b):
     return type(a) is type(b) and a == b
 
 
-def diff_param(name, want, got, check_default=True, ws=False):
+def diff_param(name, want, got, check_default=True, ws=False, exact_prose=False):
     """-> list of human-readable differences between two python param dicts"""
     out = []
     if (want.get("typ") or None) != (got.get("typ") or None):
         out.append("%s: typ %r -> %r" % (name, want.get("typ"), got.get("typ")))
-    a, b = prose_core(want.get("doc") or None), prose_core(got.get("doc") or None)
+    core = (lambda x: x) if exact_prose else prose_core
+    a, b = core(want.get("doc") or None), core(got.get("doc") or None)
     if ws:
         a, b = (None if a is None else " ".join(a.split())), (None if b is None else " ".join(b.split()))
     if (a or None) != (b or None):
@@ -87,7 +88,7 @@ def diff_param(name, want, got, check_default=True, ws=False):
     return out
 
 
-def diff_ir(want, got, check_default=True, ws=False, check_doc=True):
+def diff_ir(want, got, check_default=True, ws=False, check_doc=True, exact_prose=False):
     """`Same`: differences between two python IRs (empty list = same interface)"""
     out = []
     wd, gd = want.get("doc"), got.get("doc")
@@ -100,11 +101,11 @@ def diff_ir(want, got, check_default=True, ws=False, check_doc=True):
         out.append("parameter names/order %r -> %r" % (wn, gn))
     for n in wn:
         if n in got["params"]:
-            out += diff_param(n, want["params"][n], got["params"][n], check_default, ws)
+            out += diff_param(n, want["params"][n], got["params"][n], check_default, ws, exact_prose)
     wr = (want.get("returns") or {}).get("return_type")
     gr = (got.get("returns") or {}).get("return_type")
     if (wr is None) != (gr is None):
         out.append("return entry %r -> %r" % (wr, gr))
     elif wr is not None:
-        out += diff_param("return_type", wr, gr, check_default, ws)
+        out += diff_param("return_type", wr, gr, check_default, ws, exact_prose)
     return out
